@@ -31,6 +31,16 @@ func repoFunc(fn string) (string, bool) {
 	s := fn[len(modPrefix):]
 	s = genericRe.ReplaceAllString(s, "")
 	s = closureRe.ReplaceAllString(s, "")
+	// a function inlined into its caller is printed as "pkg.(*T).Caller.(*T).Inlined":
+	// keep the package and the innermost function
+	if i := strings.LastIndex(s, ".("); i >= 0 {
+		if slash := strings.LastIndex(s, "/"); strings.Index(s[slash+1:], ".") >= 0 {
+			pkgEnd := slash + 1 + strings.Index(s[slash+1:], ".")
+			if i > pkgEnd {
+				s = s[:pkgEnd] + s[i:]
+			}
+		}
+	}
 	return s, true
 }
 
